@@ -140,13 +140,28 @@ def handle : Handler := fun op args =>
       if x = 0 then "undef" else "ok " ++ showVec (vsdiv u x)
   | "c04.veq" => withArgs (do let u ← pRats; let v ← pRats; pure (u, v)) args fun (u, v) => "ok " ++ b01 (veq u v)
   | "c04.meq" => withArgs (do let a ← pMat; let b ← pMat; pure (a, b)) args fun (a, b) => "ok " ++ b01 (meq a b)
-  | "c04.vnorm" => withArgs pRats args fun u => "ok " ++ showRat (vnormSq u)     -- the square
+  | "c04.vnorm" => withArgs pRats args fun u => "ok " ++ showRat (vnormScaledSq 0 u)     -- the square (as coded, 8a680df)
   | "c04.mnorm" => withArgs pMat args fun a => "ok " ++ showRat (normSq a)       -- the square
   | "c04.vget" => withArgs (do let u ← pRats; let i ← pNat; pure (u, i)) args fun (u, i) => ansR (vget u i)
   | "c04.mget" => withArgs (do let a ← pMat; let i ← pNat; let j ← pNat; pure (a, i, j)) args fun (a, i, j) => ansR (mget a i j)
   -- algebraic laws evaluated by the harness on the implementation: (A·B)ᵀ = BᵀAᵀ, A·1 = A, 1·A = A,
   -- Aᵀᵀ = A (exactly).  The model says: all hold whenever the product is defined (theorems
   -- `mul_transpose`, `mul_identity`, `identity_mul`, `transpose_transpose`).
+  -- A·v = A·column(v), w·A = row(w)·A, outer(w,v) = column(w)·row(v), v·v = row(v)·column(v): evaluated on the model
+  | "c04.rowcol" => withArgs (do let a ← pMat; let v ← pRats; let w ← pRats; pure (a, v, w)) args fun (a, v, w) =>
+      let colv : Mat := ⟨v.length, 1, v.map (fun x => [x])⟩
+      let rowv : Mat := ⟨1, v.length, [v]⟩
+      let colw : Mat := ⟨w.length, 1, w.map (fun x => [x])⟩
+      let roww : Mat := ⟨1, w.length, [w]⟩
+      match matVec a v, mul a colv, vecMat w a, mul roww a with
+      | .ok av, .ok ac, .ok wa, .ok ra =>
+        match mul colw rowv, mul rowv colv, dot v v with
+        | .ok cr, .ok rc, .ok d =>
+          "ok " ++ b01 (decide (ac.data = av.map (fun x => [x]))) ++ " " ++ b01 (decide (ra.data = [wa])) ++ " "
+            ++ b01 (meq (outer w v) cr) ++ " " ++ b01 (decide (rc.data = [[d]]))
+        | _, _, _ => "err"
+      | .error .undef, _, _, _ => "undef"
+      | _, _, _, _ => "err"
   | "c04.laws" => withArgs (do let a ← pMat; let b ← pMat; pure (a, b)) args fun (a, b) =>
       match mul a b, mul (transpose b) (transpose a), mul a (identity a.cols), mul (identity a.rows) a with
       | .ok ab, .ok btat, .ok ai, .ok ia =>
